@@ -133,12 +133,20 @@ def cases(ctx):
             k += 1
             if ctx.mine(k):
                 yield {"kind": "direct", "angle": a, "tol": tol}
+    # angles handed over as numpy float16 / float32 scalars (results of array arithmetic)
+    j = 0
+    for a in [3.0, -26.2, 0.7, 6283.0, 32.606396, -1.5, 100.0, 0.001] + [ctx.rng.uniform(-50, 50) for _ in range(10 if ctx.quick else 2000)]:
+        for ty in ("float16", "float32"):
+            j += 1
+            if ctx.mine(j):
+                yield {"kind": "direct", "angle": a, "tol": 1e-4, "type": ty}
     sdk = _angles(ctx, 40 if ctx.quick else 3000)
     for i, a in enumerate(sdk):
         if ctx.mine(i) and (not ctx.quick or i % 7 == 0):
             yield {"kind": "sdk", "angle": a, "axis": "XYZ"[i % 3]}
     # angles given as other finite numeric types than the builtin float
-    for i, (a, tp) in enumerate([(1, "int"), (3, "int"), (-2, "int"), (0.7, "float32"), (2.5, "float32"), (1.1, "float64"), (7, "int"), (5.5, "float32")]):
+    for i, (a, tp) in enumerate([(1, "int"), (3, "int"), (-2, "int"), (0.7, "float32"), (2.5, "float32"), (1.1, "float64"), (7, "int"), (5.5, "float32"),
+                                 (3.0, "float16"), (-26.2, "float16"), (6283.0, "float32")]):
         if ctx.mine(i):
             yield {"kind": "sdk", "angle": a, "axis": "XYZ"[i % 3], "type": tp}
     # `angle` given together with explicit (n, d): documented as "n and d are ignored", also for angles of exactly zero
@@ -169,8 +177,14 @@ def run_case(ctx, case):
     a = case["angle"]
     if case["kind"] == "direct":
         tol = case["tol"]
+        arg = a
+        if case.get("type"):
+            import numpy as np
+            arg = getattr(np, case["type"])(a)      # the angle as a narrower float type: its value is still an exact finite number
+            a = float(arg)
+            ctx.count("narrow_float_angles")
         try:
-            res = sp.get_angle_spec_from_float(a, tol)
+            res = sp.get_angle_spec_from_float(arg, tol)
         except Exception as e:
             ctx.fail(case, f"angle {a!r} tol {tol!r}: raised {type(e).__name__}: {e}")
             ctx.case(case, _nontrivial(a, tol))
